@@ -23,7 +23,7 @@ CHECKS = {
  "C05": dict(cat="proof", tech="Lean 4 theorems (bit-smear = least power of two via testBit; refinement of the masked 32-bit ring to a byte FIFO; transaction invariant) and white-box correspondence of both heads and the open transaction",
    text="Proved: next_pow2_spec (for 1 <= s <= 2^31 the smear is the least power of two >= s), new_wf/new_capacity, ring_space_sum (read_space + write_space = capacity always), write_refines / read_refines / peek_refines / skip_refines / reset_refines "
         "(success exactly when the request fits, exact bytes in FIFO order, otherwise 0 and no change), and for transactions begin_ok, tx_amend (invisible, contiguous, NO_MEM exactly beyond the free space seen at begin), tx_write_space, tx_commit_is_one_write, "
-        "tx_survives_read. Tie: per call the return value, delivered bytes, both heads and the transaction record compared with the implementation for sizes 1..130 and 2^k±1, requests clustered at the fits/does-not-fit boundary.",
+        "tx_survives_read; history level (Properties/C05History.lean): ring_refines_queue (every single-thread history of write/read/peek/skip/reset/begin/amend/commit/abandon on zix_ring_new(s), 1 <= s <= 2^31, returns exactly what a bounded FIFO with transactions returns and stores its bytes), reachable_space_sum, spec_abandon_no_trace, spec_commit_is_one_write. Tie: per call the return value, delivered bytes, both heads and the transaction record compared with the implementation for sizes 1..130 and 2^k±1, requests clustered at the fits/does-not-fit boundary.",
    note="memcpy modelled as list copy; sizes 0 and > 2^31 make next_power_of_two return 0 and are outside the property; x & mask is modelled as x % size (equal for the power-of-two sizes proved).", ref="§5 C05"),
  "C16": dict(cat="proof", tech="Lean 4 theorems (loop invariant by induction on fuel: the C scanner equals the token-level specification for every string and environment) and model/implementation correspondence on an exhaustive small alphabet",
    text="expand_terminates and expand_eq_spec are proved for every NUL-free string and every environment (fuel length+1 always suffices; the scanner's output is the token-level spec: "
